@@ -235,7 +235,7 @@ theorem sqrt_exp (y : ZMod P) : ((y ^ 2) ^ ((P + 1) / 4)) ^ 2 = y ^ 2 := by
   by_cases hy : y = 0
   · subst hy
     rw [zero_pow (by decide), zero_pow (by decide), zero_pow (by decide)]
-  · rw [← pow_mul, ← pow_mul, show 2 * ((P + 1) / 4) * 2 = (P - 1) + 2 by decide, pow_add,
+  · rw [← pow_mul, ← pow_mul, show 2 * ((P + 1) / 4 * 2) = (P - 1) + 2 by decide, pow_add,
       ZMod.pow_card_sub_one_eq_one hy, one_mul]
 
 /-- `sqrt` finds a root of every square: it returns `y` or `P − y` -/
@@ -261,7 +261,8 @@ theorem fsqrt_sq {y : ℕ} (hy : y < P) :
       · left
         subst hy0
         apply cast_inj_of_lt P hsP hy
-        simpa using h1
+        rw [Nat.cast_zero, add_zero] at h1
+        rw [Nat.cast_zero]; exact h1
       · right
         refine ⟨hy0, ?_⟩
         apply cast_inj_of_lt P hsP (by omega)
@@ -300,13 +301,17 @@ theorem mkPoint_none {x y : ℕ} (h : ¬ Valid P A B (.aff x y)) : mkPoint x y =
   rw [if_neg]
   exact h
 
+-- keep `whnf` from unrolling the 256 squarings of the square root when it compares `match`es
+attribute [local irreducible] fsqrt fpow
+
 theorem parseXonly_eq (b : Bytes) : parseXonly b =
     if beToNat b = 0 then some .inf else
     if ¬ beToNat b < P then none else
     match fsqrt (fadd P (fpow P (beToNat b) 3) B) with
     | none => none
     | some beta =>
-      if beta % 2 = 1 then mkPoint (beToNat b) (P - beta) else mkPoint (beToNat b) beta := rfl
+      if beta % 2 = 1 then mkPoint (beToNat b) (P - beta) else mkPoint (beToNat b) beta := by
+  unfold parseXonly; rfl
 
 theorem neg_valid_aff {x y : ℕ} (h : Valid P A B (.aff x y)) : Valid P A B (.aff x (P - y)) := by
   have := pneg_valid curveOK_secp h
@@ -385,5 +390,303 @@ theorem parseXonly_spec {b : Bytes} {x y : ℕ} (h : parseXonly b = some (.aff x
           injection this with e1 e2
           refine ⟨e1, ?_⟩
           rw [e2]; omega
+
+/-! ## SEC encodings -/
+
+theorem parseSec_cons (pre : UInt8) (rest : Bytes) : parseSec (pre :: rest) =
+    if pre = 4 then
+      if (pre :: rest).length ≠ 65 then none
+      else mkPoint (beToNat (rest.take 32)) (beToNat ((rest.drop 32).take 32))
+    else if (pre ≠ 2 ∧ pre ≠ 3) ∨ (pre :: rest).length ≠ 33 then none
+    else
+      if ¬ beToNat rest < P then none else
+      match fsqrt (fadd P (fpow P (beToNat rest) 3) B) with
+      | none => none
+      | some beta =>
+        if beta = 0 then none
+        else mkPoint (beToNat rest)
+          (if pre = 2 then (if beta % 2 = 0 then beta else P - beta)
+           else (if beta % 2 = 0 then P - beta else beta)) := by
+  unfold parseSec; rfl
+
+theorem sec_compressed (x y : ℕ) :
+    sec (.aff x y) true = some ((if y % 2 = 1 then 3 else 2) :: natToBE' 32 x) := rfl
+
+theorem sec_uncompressed (x y : ℕ) :
+    sec (.aff x y) false = some (4 :: natToBE' 32 x ++ natToBE' 32 y) := rfl
+
+theorem sec_length {Q : Pt} {c : Bool} {s : Bytes} (h : sec Q c = some s) :
+    s.length = if c then 33 else 65 := by
+  cases Q with
+  | inf => cases h
+  | aff x y =>
+    cases c
+    · rw [sec_uncompressed] at h; injection h with h; subst h; simp
+    · rw [sec_compressed] at h; injection h with h; subst h; simp
+
+/-- compressed SEC round trip -/
+theorem parseSec_sec_compressed {x y : ℕ} (hQ : Valid P A B (.aff x y)) :
+    parseSec ((if y % 2 = 1 then 3 else 2) :: natToBE' 32 x) = some (.aff x y) := by
+  have hx := hQ.1
+  have hy := hQ.2.1
+  have hy0 := valid_y_ne_zero hQ
+  have hbe : beToNat (natToBE' 32 x) = x := beToNat_natToBE' (lt_trans hx P_lt_2_256)
+  obtain ⟨s, hs, hcase⟩ := fsqrt_sq hy
+  have hpar := sub_parity hy hy0
+  have hs0 : s ≠ 0 := by rcases hcase with rfl | ⟨_, rfl⟩ <;> omega
+  rw [parseSec_cons, hbe, rhs_eq_of_valid hQ, hs]
+  by_cases h1 : y % 2 = 1
+  · rw [if_pos h1, if_neg (by decide), if_neg (by simp), if_neg (not_not.mpr hx)]
+    show (if s = 0 then none else mkPoint x (if (3 : UInt8) = 2 then _ else _)) = _
+    rw [if_neg hs0, if_neg (by decide)]
+    rcases hcase with rfl | ⟨_, rfl⟩
+    · rw [if_neg (by omega), mkPoint_of_valid hQ]
+    · rw [if_pos (by omega), Nat.sub_sub_self hy.le, mkPoint_of_valid hQ]
+  · rw [if_neg h1, if_neg (by decide), if_neg (by simp), if_neg (not_not.mpr hx)]
+    show (if s = 0 then none else mkPoint x (if (2 : UInt8) = 2 then _ else _)) = _
+    rw [if_neg hs0, if_pos rfl]
+    rcases hcase with rfl | ⟨_, rfl⟩
+    · rw [if_pos (by omega), mkPoint_of_valid hQ]
+    · rw [if_neg (by omega), Nat.sub_sub_self hy.le, mkPoint_of_valid hQ]
+
+/-- uncompressed SEC round trip -/
+theorem parseSec_sec_uncompressed {x y : ℕ} (hQ : Valid P A B (.aff x y)) :
+    parseSec (4 :: natToBE' 32 x ++ natToBE' 32 y) = some (.aff x y) := by
+  have hx := hQ.1
+  have hy := hQ.2.1
+  show parseSec (4 :: (natToBE' 32 x ++ natToBE' 32 y)) = _
+  rw [parseSec_cons, if_pos rfl, if_neg (by simp),
+    take_append_len _ _ 32 (natToBE'_length 32 x), drop_append_len _ _ 32 (natToBE'_length 32 x),
+    List.take_of_length_le (by simp), beToNat_natToBE' (lt_trans hx P_lt_2_256),
+    beToNat_natToBE' (lt_trans hy P_lt_2_256), mkPoint_of_valid hQ]
+
+/-- **SEC round trip** for every curve point and both formats -/
+theorem parseSec_sec {Q : Pt} (hQ : Valid P A B Q) (c : Bool) {s : Bytes} (h : sec Q c = some s) :
+    parseSec s = some Q := by
+  cases Q with
+  | inf => cases h
+  | aff x y =>
+    cases c
+    · rw [sec_uncompressed] at h; injection h with h; subst h; exact parseSec_sec_uncompressed hQ
+    · rw [sec_compressed] at h; injection h with h; subst h; exact parseSec_sec_compressed hQ
+
+/-- S256Point.parse dispatches on the length -/
+theorem parsePoint_sec {Q : Pt} (hQ : Valid P A B Q) (c : Bool) {s : Bytes} (h : sec Q c = some s) :
+    parsePoint s = some Q := by
+  have hl := sec_length h
+  unfold parsePoint
+  cases c
+  · simp only [Bool.false_eq_true, if_false] at hl
+    rw [if_neg (by omega), if_pos (by omega)]; exact parseSec_sec hQ false h
+  · simp only [if_true] at hl
+    rw [if_neg (by omega), if_pos (by omega)]; exact parseSec_sec hQ true h
+
+theorem xonly_length (Q : Pt) : (xonly Q).length = 32 := by cases Q <;> simp [xonly]
+
+theorem parsePoint_xonly {Q : Pt} (hQ : Valid P A B Q) (h0 : Q ≠ .inf) :
+    parsePoint (xonly Q) = some (evenRep Q) := by
+  unfold parsePoint
+  rw [if_pos (xonly_length Q)]; exact parseXonly_xonly hQ h0
+
+/-- everything `parse_sec` accepts is a curve point -/
+theorem parseSec_valid {b : Bytes} {Q : Pt} (h : parseSec b = some Q) : Valid P A B Q := by
+  cases b with
+  | nil => cases h
+  | cons pre rest =>
+    rw [parseSec_cons] at h
+    by_cases h4 : pre = 4
+    · rw [if_pos h4] at h
+      by_cases hl : (pre :: rest).length ≠ 65
+      · rw [if_pos hl] at h; cases h
+      · rw [if_neg hl] at h; exact (mkPoint_some h).2
+    · rw [if_neg h4] at h
+      by_cases hg : (pre ≠ 2 ∧ pre ≠ 3) ∨ (pre :: rest).length ≠ 33
+      · rw [if_pos hg] at h; cases h
+      · rw [if_neg hg] at h
+        by_cases hx : ¬ beToNat rest < P
+        · rw [if_pos hx] at h; cases h
+        · rw [if_neg hx] at h
+          cases hs : fsqrt (fadd P (fpow P (beToNat rest) 3) B) with
+          | none => rw [hs] at h; cases h
+          | some beta =>
+            rw [hs] at h
+            by_cases hb : beta = 0
+            · simp only [if_pos hb] at h; cases h
+            · simp only [if_neg hb] at h; exact (mkPoint_some h).2
+
+theorem parsePoint_valid {b : Bytes} {Q : Pt} (h : parsePoint b = some Q) : Valid P A B Q := by
+  unfold parsePoint at h
+  by_cases h32 : b.length = 32
+  · rw [if_pos h32] at h; exact parseXonly_valid h
+  · rw [if_neg h32] at h
+    by_cases hl : b.length = 33 ∨ b.length = 65
+    · rw [if_pos hl] at h; exact parseSec_valid h
+    · rw [if_neg hl] at h; cases h
+
+/-! ### rejection -/
+
+theorem parseSec_nil : parseSec [] = none := rfl
+
+/-- prefix discipline: a first byte other than 02, 03, 04 is refused (F03a) -/
+theorem parseSec_bad_prefix (pre : UInt8) (rest : Bytes) (h2 : pre ≠ 2) (h3 : pre ≠ 3) (h4 : pre ≠ 4) :
+    parseSec (pre :: rest) = none := by
+  rw [parseSec_cons, if_neg h4, if_pos (Or.inl ⟨h2, h3⟩)]
+
+/-- length discipline: prefix 04 needs 65 bytes, prefixes 02/03 need 33 bytes (F03a) -/
+theorem parseSec_bad_length (pre : UInt8) (rest : Bytes)
+    (h : (pre = 4 ∧ rest.length ≠ 64) ∨ (pre ≠ 4 ∧ rest.length ≠ 32)) :
+    parseSec (pre :: rest) = none := by
+  rw [parseSec_cons]
+  rcases h with ⟨h4, hl⟩ | ⟨h4, hl⟩
+  · rw [if_pos h4, if_pos (by simp; omega)]
+  · rw [if_neg h4, if_pos (Or.inr (by simp; omega))]
+
+/-- a compressed key whose x is not a field element is refused -/
+theorem parseSec_x_ge_p (pre : UInt8) (rest : Bytes) (h4 : pre ≠ 4) (hx : P ≤ beToNat rest) :
+    parseSec (pre :: rest) = none := by
+  rw [parseSec_cons, if_neg h4]
+  by_cases hg : (pre ≠ 2 ∧ pre ≠ 3) ∨ (pre :: rest).length ≠ 33
+  · rw [if_pos hg]
+  · rw [if_neg hg, if_pos (by omega)]
+
+/-- a compressed key whose `x³ + 7` is not a square is refused -/
+theorem parseSec_nonresidue (pre : UInt8) (rest : Bytes) (h4 : pre ≠ 4)
+    (hn : ∀ y, y < P → y * y % P ≠ (beToNat rest ^ 3 + 7) % P) :
+    parseSec (pre :: rest) = none := by
+  rw [parseSec_cons, if_neg h4]
+  by_cases hg : (pre ≠ 2 ∧ pre ≠ 3) ∨ (pre :: rest).length ≠ 33
+  · rw [if_pos hg]
+  · rw [if_neg hg]
+    by_cases hx : ¬ beToNat rest < P
+    · rw [if_pos hx]
+    · rw [if_neg hx, rhs_eq, fsqrt_none_of_nonsquare hn]
+
+theorem parseXonly_x_ge_p (b : Bytes) (hx : P ≤ beToNat b) : parseXonly b = none := by
+  have hP := P_pos
+  rw [parseXonly_eq, if_neg (by omega), if_pos (by omega)]
+
+theorem parseXonly_nonresidue (b : Bytes) (h0 : beToNat b ≠ 0)
+    (hn : ∀ y, y < P → y * y % P ≠ (beToNat b ^ 3 + 7) % P) : parseXonly b = none := by
+  rw [parseXonly_eq, if_neg h0]
+  by_cases hx : ¬ beToNat b < P
+  · rw [if_pos hx]
+  · rw [if_neg hx, rhs_eq, fsqrt_none_of_nonsquare hn]
+
+theorem parsePoint_bad_length (b : Bytes) (h : b.length ≠ 32 ∧ b.length ≠ 33 ∧ b.length ≠ 65) :
+    parsePoint b = none := by
+  unfold parsePoint
+  rw [if_neg h.1, if_neg (by omega)]
+
+/-! ### x-only round trip with the code's `even_point` (points annihilated by N, e.g. `kG`) -/
+
+theorem parseXonly_xonly_tors {Q : Pt} (hQ : Tors Q) (h0 : Q ≠ .inf) :
+    parseXonly (xonly Q) = some (evenPoint Q) := by
+  rw [evenPoint_eq_evenRep hQ]; exact parseXonly_xonly hQ.1 h0
+
+/-- BIP340 `lift_x`: `parse_xonly(xonly(aG)) = even_point(aG)` -/
+theorem parseXonly_xonly_smul_G (a : ℤ) (h0 : smul a G ≠ .inf) :
+    parseXonly (xonly (smul a G)) = some (evenPoint (smul a G)) :=
+  parseXonly_xonly_tors (smul_tors G_tors a) h0
+
+theorem evenPoint_tors {Q : Pt} (hQ : Tors Q) : Tors (evenPoint Q) := by
+  unfold evenPoint; split
+  · exact smul_tors hQ _
+  · exact hQ
+
+theorem parity_evenPoint {Q : Pt} (hQ : Tors Q) : parity (evenPoint Q) = 0 := by
+  rw [evenPoint_eq_evenRep hQ]; exact parity_evenRep hQ.1
+
+theorem xonly_evenPoint {Q : Pt} (hQ : Tors Q) : xonly (evenPoint Q) = xonly Q := by
+  rw [evenPoint_eq_evenRep hQ]; exact xonly_evenRep Q
+
+/-! ### Euler's criterion as a computable test, and canonicity of accepted encodings -/
+
+/-- if `c^((P-1)/2) = -1` (a kernel-checkable computation) then `c` is not a square -/
+theorem nonsquare_of_euler {c : ℕ} (h : powmod c ((P - 1) / 2) P = P - 1) :
+    ∀ y, y < P → y * y % P ≠ c % P := by
+  intro y hy he
+  have hc : (c : ZMod P) = (y : ZMod P) ^ 2 := by
+    have := congrArg (Nat.cast (R := ZMod P)) he
+    rw [ZMod.natCast_mod, ZMod.natCast_mod, Nat.cast_mul] at this
+    rw [← this, sq]
+  have hne : powmod c ((P - 1) / 2) P ≠ 1 := by rw [h]; decide
+  have hpow := cast_pow_ne_one_of_powmod hne
+  by_cases hy0 : (y : ZMod P) = 0
+  · have h0 : ((powmod c ((P - 1) / 2) P : ℕ) : ZMod P) = 0 := by
+      rw [powmod_cast, hc, hy0, zero_pow (by decide), zero_pow (by decide)]
+    rw [h, Nat.cast_sub (by decide), ZMod.natCast_self, zero_sub] at h0
+    have h1 : (1 : ZMod P) = 0 := by simpa using h0
+    exact one_ne_zero h1
+  · apply hpow
+    rw [hc, ← pow_mul, show 2 * ((P - 1) / 2) = P - 1 by decide]
+    exact ZMod.pow_card_sub_one_eq_one hy0
+
+/-- every string `parse_sec` accepts is exactly the SEC encoding of the point it returns -/
+theorem sec_of_parseSec {b : Bytes} {Q : Pt} (h : parseSec b = some Q) :
+    ∃ c, sec Q c = some b := by
+  cases b with
+  | nil => cases h
+  | cons pre rest =>
+    rw [parseSec_cons] at h
+    by_cases h4 : pre = 4
+    · rw [if_pos h4] at h
+      by_cases hl : (pre :: rest).length ≠ 65
+      · rw [if_pos hl] at h; cases h
+      · rw [if_neg hl] at h
+        have hlen : rest.length = 64 := by simp at hl; omega
+        obtain ⟨rfl, -⟩ := mkPoint_some h
+        refine ⟨false, ?_⟩
+        rw [sec_uncompressed, h4]
+        have h1 : natToBE' 32 (beToNat (rest.take 32)) = rest.take 32 := by
+          have := natToBE'_beToNat (rest.take 32)
+          rwa [List.length_take, hlen] at this
+        have h2 : natToBE' 32 (beToNat ((rest.drop 32).take 32)) = rest.drop 32 := by
+          have hd : (rest.drop 32).take 32 = rest.drop 32 :=
+            List.take_of_length_le (by rw [List.length_drop, hlen])
+          rw [hd]
+          have := natToBE'_beToNat (rest.drop 32)
+          rwa [List.length_drop, hlen] at this
+        rw [h1, h2]
+        show some (4 :: (rest.take 32 ++ rest.drop 32)) = _
+        rw [List.take_append_drop]
+    · rw [if_neg h4] at h
+      by_cases hg : (pre ≠ 2 ∧ pre ≠ 3) ∨ (pre :: rest).length ≠ 33
+      · rw [if_pos hg] at h; cases h
+      · rw [if_neg hg] at h
+        have hlen : rest.length = 32 := by
+          have : ¬ (pre :: rest).length ≠ 33 := fun hh => hg (Or.inr hh)
+          simp at this; omega
+        have hpre : pre = 2 ∨ pre = 3 := by
+          by_contra hcon
+          exact hg (Or.inl ⟨fun h2 => hcon (Or.inl h2), fun h3 => hcon (Or.inr h3)⟩)
+        by_cases hx : ¬ beToNat rest < P
+        · rw [if_pos hx] at h; cases h
+        · rw [if_neg hx] at h
+          cases hs : fsqrt (fadd P (fpow P (beToNat rest) 3) B) with
+          | none => rw [hs] at h; cases h
+          | some beta =>
+            rw [hs] at h
+            have hbP := (fsqrt_some hs).1
+            by_cases hb : beta = 0
+            · simp only [if_pos hb] at h; cases h
+            · simp only [if_neg hb] at h
+              obtain ⟨rfl, -⟩ := mkPoint_some h
+              refine ⟨true, ?_⟩
+              rw [sec_compressed]
+              have h1 : natToBE' 32 (beToNat rest) = rest := by
+                have := natToBE'_beToNat rest
+                rwa [hlen] at this
+              rw [h1]
+              have hodd := P_odd
+              congr 2
+              rcases hpre with rfl | rfl
+              · rw [if_pos rfl]
+                by_cases hb2 : beta % 2 = 0
+                · rw [if_pos hb2, if_neg (by omega)]
+                · rw [if_neg hb2, if_neg (by generalize P = p at *; omega)]
+              · rw [if_neg (by decide)]
+                by_cases hb2 : beta % 2 = 0
+                · rw [if_pos hb2, if_pos (by generalize P = p at *; omega)]
+                · rw [if_neg hb2, if_pos (by omega)]
 
 end Buidl.EC
